@@ -94,6 +94,43 @@ func (o concOp) run() (digest string) {
 	v := randValue(r, wire.TStruct, 2)
 	var enc bytes.Buffer
 	switch o.kind {
+	case "decode-large", "stream-decode-large":
+		// a binary above the readers' incremental-allocation threshold (1 MiB), filled with a byte private to this
+		// operation; the decoded slice is used only after the reader is closed and other goroutines had a chance to run
+		fill := byte('A' + o.seed%26)
+		payload := bytes.Repeat([]byte{fill}, 1<<20+1+int(o.seed%7))
+		lv := wire.NewValueStruct(wire.Struct{Fields: []wire.Field{{ID: 1, Value: wire.NewValueBinary(payload)}, {ID: 2, Value: wire.NewValueString(string(payload[:1<<20+1]))}}})
+		binary.Default.Encode(lv, &enc)
+		var got wire.Value
+		var err error
+		if o.kind == "decode-large" {
+			got, err = binary.Default.Decode(bytes.NewReader(enc.Bytes()), wire.TStruct)
+		} else {
+			rd := binary.Default.Reader(sx.NewChunked(enc.Bytes(), "rand", o.seed))
+			got, err = sx.ReadValue(rd, wire.TStruct)
+			rd.Close()
+		}
+		if err != nil {
+			return "err:" + err.Error()
+		}
+		for i := 0; i < 3; i++ {
+			runtime.Gosched()
+		}
+		time.Sleep(time.Millisecond)
+		for _, f := range got.GetStruct().Fields {
+			var bs []byte
+			if f.ID == 1 {
+				bs = f.Value.GetBinary()
+			} else {
+				bs = []byte(f.Value.GetString())
+			}
+			for _, c := range bs {
+				if c != fill {
+					return fmt.Sprintf("corrupt: field %d holds %q in a payload of %q", f.ID, c, fill)
+				}
+			}
+		}
+		return fmt.Sprintf("large-ok-%c", fill)
 	case "encode":
 		if err := binary.Default.Encode(v, &enc); err != nil {
 			return "err:" + err.Error()
@@ -227,7 +264,7 @@ func (o concOp) run() (digest string) {
 	return "unknown-kind"
 }
 
-var concKinds = []string{"encode", "decode", "stream-encode", "stream-decode", "gen-wire", "gen-stream", "envelope", "readrequest", "readrequest-legacy", "readrequest-bare", "decoderequest"}
+var concKinds = []string{"encode", "decode", "stream-encode", "stream-decode", "gen-wire", "gen-stream", "envelope", "readrequest", "readrequest-legacy", "readrequest-bare", "decoderequest", "decode-large", "stream-decode-large"}
 
 type echoHandler struct{}
 
